@@ -469,3 +469,21 @@ def _ahead(cls, attr, ctor):
 
 _ahead("Array", "capacity", lambda bp, v: bp.Array(True, v, None))
 _ahead("MessageProcessor", "nbits", lambda bp, v: bp.MessageProcessor(True, v, []))
+
+
+@_lemma("lemma:layout-invariant-under-rewrites", ["C12"],
+        "for every listed rewrite the reference layout of the rewritten schema, on the value mapped through the rewrite, is bit for "
+        "bit the layout of the base schema (the reference layout mentions only number order and resolved types)")
+def _rewrites(E):
+    from ..spec import layout as L
+    from ..templates import family
+    vs = family.rewrite_variants()
+    _, s0, t0, _ = vs[0]
+    leaves = []
+    v = L.fresh_value(t0, "v", leaves)
+    base = L.enc(t0, v)
+    for name, s, t, vmap in vs[1:]:
+        bits = L.enc(t, vmap(v))
+        E.oblige("same-length[%s]" % name, len(bits) == len(base), kind="lemma")
+        for k, (a, b) in enumerate(zip(bits, base)):
+            E.oblige("same-bit[%s][%d]" % (name, k), a == b, kind="lemma")
